@@ -419,7 +419,7 @@ def parse_param_filter(el, cls):
         if subel.tag == "{urn:ietf:params:xml:ns:caldav}is-not-defined":
             param_filter.is_not_defined = True
         elif subel.tag == "{urn:ietf:params:xml:ns:caldav}text-match":
-            parse_text_match(subel, param_filter.filter_time_range)
+            parse_text_match(subel, param_filter.filter_text_match)
         else:
             raise AssertionError("unknown tag %r in param-filter", subel.tag)
     return param_filter
@@ -463,7 +463,7 @@ def parse_comp_filter(el: ET.Element, cls):
     for subel in el:
         if subel.tag == "{urn:ietf:params:xml:ns:caldav}is-not-defined":
             comp_filter.is_not_defined = True
-        if subel.tag == "{urn:ietf:params:xml:ns:caldav}comp-filter":
+        elif subel.tag == "{urn:ietf:params:xml:ns:caldav}comp-filter":
             parse_comp_filter(subel, comp_filter.filter_subcomponent)
         elif subel.tag == "{urn:ietf:params:xml:ns:caldav}prop-filter":
             parse_prop_filter(subel, comp_filter.filter_property)
